@@ -7,4 +7,6 @@ if [ ! -x bin/gvc ] || [ -n "$(find tool/cmd -newer bin/gvc -name '*.go' 2>/dev/
   ./setup.sh >/dev/null || { echo "BROKEN-CHECK: gvc does not build"; exit 3; }
 fi
 tier="${2:-${VERIF_TIER:-quick}}"
-exec bin/gvc check -prop "$1" -tier "$tier"
+# -verif: every input (props, contracts of dependencies, preludes, lemmas, corpus) and
+# every output (evidence, replays) of a run belongs to the directory this script lives in
+exec bin/gvc check -prop "$1" -tier "$tier" -verif "$PWD"
